@@ -3,6 +3,7 @@ import XmpProofs.LinFlowTerm
 import XmpProofs.LinFlowSim
 import XmpProofs.LinFlowSimChk
 import XmpProofs.LinFlowSeqs
+import XmpModel.Gen.C18Flags
 /-!
 # C18 — the reported duration is exact for modules with linear flow
 
@@ -80,6 +81,10 @@ IT row delay (`SEx`, `Fx.rowdelay`: the row is entered `1 + x` times, each for `
 simulation theorems do not cover modules that contain it (the player's row trace then has `1 + x` entries
 where the scan's has one, and `scan_cnt` is `1 + x`).  `C18_scan_eq_play_partial` / `C18_pattern_step`
 carry the hypothesis `p.rowdelay = 0` (no row delay pending) for the same reason.
+`Fxx` (FX_SPEED of MOD / XM) is a speed or a tempo depending on `QUIRK_NOBPM`, the VBlank flag and the
+parameter; the driver gets it undecoded (`RawMod`) and `C18_scan_eq_play_flags` states the property for either
+flag value read by both sides; `C18_flag_word_same` (over facts generated from the C) says both sides read the
+same word, and `C18_flag_mismatch_breaks` shows that the property fails when they do not.
 Tempos above 255 are allowed by `ModWF` but lie outside the property's vocabulary: there the model's
 `tick` is a floor (both interpreters use the same one, so the theorems hold over the model), and the
 model is tied to the C only for tempos 32..255.
@@ -572,5 +577,53 @@ example : ∃ F s0 pF, exE2.start = some s0 ∧ (∀ fuel, F.length + 1 ≤ fuel
   obtain ⟨o1, H⟩ := exSeqHyp
   obtain ⟨F, s0, pF, h1, h2, _, _, _, _, _, _, h9, _⟩ := C18_loop_count exM2 0 0 _ _ exE2 o1 H
   exact ⟨F, s0, pF, h1, h2, h9⟩
+
+/-! ## `Fxx` and the VBlank flag: the same flag on the scan side and on the player side -/
+
+/-- **Both sides read the same flag word** (facts generated from scan.c / effects.c / player.c by
+`tools/gen_c18_flags.py` on every run): every test of `XMP_FLAGS_VBLANK` goes through `p->flags`, the flag word
+of the current module (never `p->player_flags`, the defaults for the next load), both the scan and the
+effect interpreter do test it, and their `FX_SPEED` conditions are the same three disjuncts — the ones
+`decodeFxSpeed` is made of (`QUIRK_NOBPM`, the flag, parameter below 0x20). -/
+theorem C18_flag_word_same :
+    (∀ r ∈ Gen.C18Flags.vblankReads, r.2 = "p->flags") ∧
+    (∃ r ∈ Gen.C18Flags.vblankReads, r.1 = "src/scan.c") ∧ (∃ r ∈ Gen.C18Flags.vblankReads, r.1 = "src/effects.c") ∧
+    Gen.C18Flags.scanSpeedCond = Gen.C18Flags.playSpeedCond ∧
+    Gen.C18Flags.scanSpeedCond = ["HAS_QUIRK(QUIRK_NOBPM)", "p->flags & XMP_FLAGS_VBLANK", "P < 0x20"] := by
+  decide
+
+/-- **C18 under either value of the VBlank flag.**  For a module with undecoded `Fxx` rows, whatever the value
+`vb` of the flag (`xmp_set_player(XMP_PLAYER_CFLAGS, …)` with its rescan, `XMP_PLAYER_FLAGS` before the load, the
+quirk table): if the scan and the player read the SAME value, everything `C18_scan_eq_play` states holds for the
+decoded module — row records, exact duration and its `int` floor, loop counter, order start times. -/
+theorem C18_scan_eq_play_flags (rm : RawMod) (vb : Bool) (hw : ModWF (rm.decode vb))
+    (hok : (scanSequences (rm.decode vb)).ok = true) (k : Nat) (hk : k < (scanSequences (rm.decode vb)).seqs.length) :
+    ∃ F, (∀ fuel, F.length + 1 ≤ fuel → (rm.env vb vb k).run fuel = F) ∧
+      rowRecs F = ((scanSequences (rm.decode vb)).seqs.getD k default).res.trace ∧
+      ticks F = ((scanSequences (rm.decode vb)).seqs.getD k default).res.durX ∧
+      ((scanSequences (rm.decode vb)).seqs.getD k default).res.ret = ((ticks F / L : Nat) : Int) ∧
+      (∀ f ∈ F, f.loopCount = 0) ∧
+      (∀ f ∈ F, f.frame = 0 → f.row = 0 →
+        ((scanSequences (rm.decode vb)).info.getD f.ord {}).timeX = f.time - tick f.bpm) := by
+  have henv : rm.env vb vb k = (scanSequences (rm.decode vb)).env (rm.decode vb) k := rfl
+  rw [henv]
+  obtain ⟨F, s0, pF, _, h2, h3, _, _, h6, h7, _, h9, _, _, _, _, _, _, h16⟩ := C18_scan_eq_play (rm.decode vb) hw hok k hk
+  exact ⟨F, h2, h3, h6, h7, h9, fun f hf h1 h2' => (h16 f hf h1 h2').1⟩
+
+/-- a MOD-style module whose only effect is `F40`: tempo 64 under CIA timing, speed 64 under VBlank -/
+def exRaw : RawMod :=
+  { xxo := [0], pats := [[.fspeed 0x40, .fx .none]], rst := 0, spd := 6, bpm := 125, marker := false, nobpm := false }
+
+example := C18_scan_eq_play_flags exRaw true (modWFb_sound _ (by decide)) (by decide +kernel) 0 (by decide +kernel)
+example := C18_scan_eq_play_flags exRaw false (modWFb_sound _ (by decide)) (by decide +kernel) 0 (by decide +kernel)
+
+/-- **The flag must be the same on both sides**: if the scan reads one value and the player the other (what
+reading `player_flags` on one side amounts to after `XMP_PLAYER_CFLAGS`), the reported duration is not the
+rendered time — on `exRaw` the scan (CIA) reports 2 rows at speed 6 and tempo 64, the player (VBlank) renders
+64 + 64 ticks at tempo 125. -/
+theorem C18_flag_mismatch_breaks :
+    ticks ((exRaw.env false true 0).run 1000) ≠ ((scanSequences (exRaw.decode false)).seqs.getD 0 default).res.durX ∧
+    ticks ((exRaw.env false false 0).run 1000) = ((scanSequences (exRaw.decode false)).seqs.getD 0 default).res.durX := by
+  decide +kernel
 
 end Xmp.LinFlow
